@@ -3,6 +3,7 @@ package props
 import (
 	"fmt"
 	"sync"
+	"time"
 
 	ws "github.com/gorilla/websocket"
 
@@ -27,7 +28,7 @@ func init() {
 		},
 		Run:          runC20,
 		BeatTimeoutS: 60,
-		Required:     []string{"pool_gets", "pool_puts", "held_checks", "shared_pool_connections"},
+		Required:     []string{"pool_gets", "pool_puts", "held_checks", "shared_pool_connections", "connections_built_by_upgrade_with_a_pool"},
 		Assumptions: []string{
 			"the pool value is opened with the verif hook VerifPoolBuf to fingerprint and poison released buffers",
 			"schedules of the concurrent family are sampled",
@@ -78,6 +79,10 @@ func runC20(ctx *core.Ctx, out *core.Out) {
 	} else if max > 40*cfg.WB {
 		max = 40 * cfg.WB // keeps the number of transport operations (and so of fault points) affordable
 	}
+	viaUpgrade := cfg.Server && ctx.Idx%4 == 1
+	if viaUpgrade {
+		cfg.WB = 4096 // Upgrader.WriteBufferSize 0: the default size
+	}
 	prog := genProgram(r, cfg, ProgOpts{MaxMsgs: 4, MaxSize: max, Invalid: true, BadJSON: true, FailSource: true})
 	desc := rtCase{Cfg: cfg, Prog: progDesc(prog)}
 	ph := core.Hash(core.J(desc))
@@ -90,7 +95,33 @@ func runC20(ctx *core.Ctx, out *core.Out) {
 			nc.FaultAt = map[int]xport.FaultKind{faultAt: fk}
 		}
 		pool := &TrackPool{}
-		c := newConn(nc, cfg, pool, 7)
+		var c *ws.Conn
+		head := 0
+		if viaUpgrade {
+			// a server connection as applications get it: Upgrader.Upgrade over a hijacked
+			// net/http connection, WriteBufferSize 0, the pool configured on the Upgrader
+			u := &ws.Upgrader{WriteBufferPool: pool.Front(7), EnableCompression: cfg.Comp, ReadBufferSize: cfg.RB}
+			req := validRequest(someKey)
+			if cfg.Comp {
+				req.Header["Sec-Websocket-Extensions"] = []string{"permessage-deflate"}
+			}
+			nc.Counted = func(xport.OpKind) bool { return false } // the handshake is not part of the fault space
+			var err error
+			c, err = u.Upgrade(newFakeRW(nc, nil, 4096), req, nil)
+			if err != nil {
+				out.Inconcl("set-up Upgrade failed: " + err.Error())
+				return true, 0
+			}
+			nc.Counted = func(k xport.OpKind) bool { return k == xport.OpWrite || k == xport.OpSetWriteDeadline }
+			head = nc.WrittenLen()
+			if held, _ := pool.Outstanding(7); held != 0 {
+				out.Violate("C20:buffers-held-after-upgrade", fmt.Sprintf("a freshly upgraded connection already accounts for %d pool buffers", held), map[string]interface{}{"case": desc})
+				return false, 0
+			}
+			out.Count("connections_built_by_upgrade_with_a_pool", 1)
+		} else {
+			c = newConn(nc, cfg, pool, 7)
+		}
 		w := NewWriter(c, cfg)
 		w.NC = nc
 		fail := func(sig, what string) bool {
@@ -139,6 +170,14 @@ func runC20(ctx *core.Ctx, out *core.Out) {
 			return false, 0
 		}
 		if faultAt < 0 {
+			// a WriteControl whose deadline has already passed fails before it gets the connection:
+			// it must not leave the connection holding anything
+			c.WriteControl(ws.PingMessage, []byte("too late"), time.Now().Add(-time.Second))
+			if held, _ := pool.Outstanding(7); held != 0 {
+				return fail(fmt.Sprintf("buffers-held-%d-want-0", held), "after a WriteControl with an expired deadline the connection holds pool buffers"), 0
+			}
+		}
+		if faultAt < 0 {
 			// abandon by closing the connection while a message is open: the buffer goes
 			// back when the message ends (the writer's Close fails), exactly once
 			if wr, err := c.NextWriter(ws.TextMessage); err == nil {
@@ -174,7 +213,7 @@ func runC20(ctx *core.Ctx, out *core.Out) {
 		out.Count("pool_gets", int64(gets))
 		out.Count("pool_puts", int64(puts))
 		if faultAt < 0 {
-			cr := &rtRun{prog: prog, w: w, wconn: nc, written: nc.Written()}
+			cr := &rtRun{prog: prog, w: w, wconn: nc, written: nc.Written()[head:]}
 			sub := core.NewOut()
 			if !judgeWire(sub, "C20:wire", desc, cfg, prog, cr, nil, false) {
 				for _, v := range sub.Viols {
